@@ -49,6 +49,9 @@ def core_evidence(merged, results):
     ev["writer_paths"] = {k: v for k, v in c.items() if k.startswith(("write.", "cas.", "rcu.", "node."))}
     ev["histories_checked"] = c.get("histories.linearizable", 0)
     ev["quiescent_objects_checked"] = c.get("q1.objects_checked", 0)
+    sb = {k[3:]: v for k, v in c.items() if k.startswith("sb.")}
+    if sb:
+        ev["store_buffering_litmus_rounds"] = sb
     return ev
 
 
@@ -63,7 +66,9 @@ CORE_RULE = ("One evaluation = one seeded execution of the core workload (2-4 th
              "operations per thread on 1-3 containers; both the default and the fallback-only strategy). It is non-trivial if at least one "
              "load overlapped a write of another thread on the same container. Distinct = distinct hash of the (thread, step point) "
              "schedule trace in TOKEN mode, of the recorded history in FREE mode; distinct_nontrivial is the size of the union of these "
-             "hashes over all shards.")
+             "hashes over all shards. Where the plan has `miri.sb` jobs, one evaluation of those = one round of a store-buffering litmus test "
+             "(T1: write(x); read flag or container y / T2: set flag or write(y); read x; the outcome in which neither sees the other is forbidden) "
+             "under one Miri seed; rounds are counted per (shape, write operation, read flavour, strategy).")
 
 WINDOW_PATHS = ["load.fast_confirmed", "load.fast_changed_debt_returned", "load.fast_changed_prepaid", "load.fallback_confirmed",
                 "load.fallback_helped", "write.helped_reader", "write.help_lost_race"]
@@ -217,10 +222,10 @@ PLANS["C01"] = plan_core("C01", "c01", "ledger + sanitizers over scheduled execu
 PLANS["C02"] = plan_core("C02", "c02", "conservation law at quiescent points", memcheck=True,
                          extra_jobs=lambda tier, seed: miri_race_jobs("C02", tier, [("a", "tp"), ("c", "tp"), ("b", "arc")], 8, 192))
 PLANS["C03"] = plan_core("C03", "c03", "history linearizability", asan=False,
-                         extra_jobs=lambda tier, seed: [life_job("C03.life.token", "token", execs=T(tier, 400, 20000), profile="c03"), miri_core_job("C03", "c03", tier)])
-PLANS["C04"] = plan_core("C04", "c04", "chain / conservation of writes", asan=False, extra_jobs=lambda tier, seed: [miri_core_job("C04", "c04", tier, 4, 96)], required=["load.fast_confirmed", "load.fallback_confirmed", "write.helped_reader"])
-PLANS["C05"] = plan_core("C05", "c05", "compare-and-swap histories", asan=False, extra_jobs=lambda tier, seed: [miri_core_job("C05", "c05", tier, 4, 96)], required=["cas.internal_retry", "load.fallback_confirmed"])
-PLANS["C06"] = plan_core("C06", "c06", "rcu histories", asan=False, extra_jobs=lambda tier, seed: [miri_core_job("C06", "c06", tier, 4, 96)], required=["rcu.retried", "load.fallback_confirmed"])
+                         extra_jobs=lambda tier, seed: [life_job("C03.life.token", "token", execs=T(tier, 400, 20000), profile="c03"), miri_core_job("C03", "c03", tier)] + miri_sb_jobs("C03", tier))
+PLANS["C04"] = plan_core("C04", "c04", "chain / conservation of writes", asan=False, extra_jobs=lambda tier, seed: [miri_core_job("C04", "c04", tier, 4, 96)] + miri_sb_jobs("C04", tier, quick_seeds=16, thorough_seeds=256), required=["load.fast_confirmed", "load.fallback_confirmed", "write.helped_reader"])
+PLANS["C05"] = plan_core("C05", "c05", "compare-and-swap histories", asan=False, extra_jobs=lambda tier, seed: [miri_core_job("C05", "c05", tier, 4, 96)] + miri_sb_jobs("C05", tier, "cas"), required=["cas.internal_retry", "load.fallback_confirmed"])
+PLANS["C06"] = plan_core("C06", "c06", "rcu histories", asan=False, extra_jobs=lambda tier, seed: [miri_core_job("C06", "c06", tier, 4, 96)] + miri_sb_jobs("C06", tier, "rcu"), required=["rcu.retried", "load.fallback_confirmed"])
 PLANS["C10"] = plan_core("C10", "c10", "guard identity / ownership ledger")
 def dual_jobs(tier):
     return [{"name": "C12.dual.reuse", "flavour": "native", "args": ["dual", "alloc=reuse", "execs=%d" % T(tier, 1500, 60000)], "shards": 4, "threads": 3, "timeout": 2400},
@@ -493,12 +498,13 @@ def plan_c17():
             {"name": "C17.access.free", "flavour": "native", "args": ["access", "mode=free", "execs=%d" % T(tier, 3000, 200000)], "shards": 3, "threads": 5, "timeout": 2400},
             {"name": "C17.access.free.asan", "flavour": "asan", "args": ["access", "mode=free", "execs=%d" % T(tier, 1500, 100000)], "shards": 3, "threads": 5, "timeout": 2400},
             {"name": "C17.access.miri", "flavour": "miri", "args": ["access", "mode=free", "execs=%d" % T(tier, 2, 3)], "miri_seeds": T(tier, 8, 128), "timeout": 1500},
-        ]
+        ] + miri_sb_jobs("C17", tier)
 
     def ev(merged, results):
         c = merged["counters"]
         return {"projection_guards_by_chain": {k[len("access.chain."):]: v for k, v in c.items() if k.startswith("access.chain.")},
-                "histories_checked": c.get("histories.linearizable", 0)}
+                "histories_checked": c.get("histories.linearizable", 0),
+                "store_buffering_litmus_rounds": {k[3:]: v for k, v in c.items() if k.startswith("sb.")}}
 
     def req(merged):
         c = merged["counters"]
@@ -512,7 +518,8 @@ def plan_c17():
                  "projection, Map over Constant), keep up to 6 projection guards (each moved into a box after creation), re-check all of them after every operation "
                  "and drop them in random order; loads are recorded as reads of the container and linearized against the stores; at the end all chains are compared on the "
                  "quiet container. TOKEN-scheduled, free-running, under ASan and Miri. All executions are non-trivial (stores overlap held guards); distinct = distinct "
-                 "schedule trace (TOKEN) / seed (free)."),
+                 "schedule trace (TOKEN) / seed (free). The `miri.sb` jobs add rounds of a store-buffering litmus test (one read flavour in four goes through a Map) "
+                 "under Miri's weak-memory emulation: a load started after a completed store must project that store's value or a later one."),
         "evidence": ev,
         "required": req,
         "assumptions": ["Root values carry a drop flag outside the value and poison their ids in the destructor, so a projection guard that outlives its snapshot is seen without relying on the sanitizer; ASan / Miri decide the memory accesses proper."],
